@@ -272,6 +272,28 @@ def run(ctx, spec):
                 ctx.violation(clause, f"pack_to_parquet:{clause}:{cname}:pair:{kind}+{k2}",
                               {"config": cname, "positions": [a, b], "kinds": [kind, k2], "detail": detail},
                               observed=o, case={"config": cname, "positions": [a, b], "kinds": [kind, k2]})
+    # ---- targeted pairs: a failing call followed by a stale listing (and the reverse) ------------------
+    if "OSError" in p["kinds"]:
+        for j in listing_pos:
+            for hard_ in ("FileNotFoundError", "OSError"):
+                for flav in ("stale", "stale-last"):
+                    for faults in ({j: hard_, j + 1: flav}, {j: flav, j + 1: hard_}):
+                        o, fired, detail = one_run(ctx, ddf, cfg, cname, golden, faults, f"mixed-{j}", None)
+                        first = faults[j]
+                        ctx.case([cname, [j, j + 1], first, faults[j + 1]], nontrivial=fired > 1)
+                        key = f"mixed:{first}+{faults[j + 1]}|{o}"
+                        hist[key] = hist.get(key, 0) + 1
+                        ctx.sig(cname, "mixed-pair", first, faults[j + 1], o)
+                        ctx.count("mixed_pairs_run")
+                        if o not in ("completed-equal", "raised-recovered"):
+                            clause = {"completed-DIFFERENT": "silently-wrong-dataset",
+                                      "raised-RECOVERY-DIFFERENT": "recovery-differs",
+                                      "raised-RECOVERY-RAISED": "recovery-raises"}[o]
+                            ctx.violation(clause, f"pack_to_parquet:{clause}:{cname}:mixed-pair:{first}+{faults[j + 1]}",
+                                          {"config": cname, "positions": [j, j + 1], "kinds": [first, faults[j + 1]],
+                                           "detail": detail}, observed=o,
+                                          case={"config": cname, "positions": [j, j + 1],
+                                                "kinds": [first, faults[j + 1]]})
     # ---- extended kinds (reported, never verdict-bearing) ---------------------------------------------
     ext = {}
     exist_pos = [i + 1 for i, op in enumerate(golden[3]) if op in ("exists", "isfile", "isdir")]
